@@ -767,6 +767,22 @@ func implC14(h caseHead, raw []byte) map[string]any {
 		}
 		entry["traceLocations"] = tl
 		entry["traceComponents"] = tc
+		// sub-results of nested constraints: (focus node, location, locations of its own trace entries)
+		var subs []any
+		for _, t := range ts {
+			tv, _ := t.(map[string]any)["traceValue"].(map[string]any)
+			srs, _ := tv["subResult"].([]any)
+			for _, sr := range srs {
+				sm, _ := sr.(map[string]any)
+				var stl []any
+				sts, _ := sm["trace"].([]any)
+				for _, st := range sts {
+					stl = append(stl, locStr(st.(map[string]any)["location"]))
+				}
+				subs = append(subs, map[string]any{"focus": sm["focusNode"], "location": locStr(sm["location"]), "traceLocations": stl})
+			}
+		}
+		entry["subResults"] = subs
 		// everything except the locations, to check that source maps change nothing else
 		delete(m, "location")
 		for _, t := range ts {
@@ -783,6 +799,8 @@ func implC14(h caseHead, raw []byte) map[string]any {
 	for _, n := range nodes {
 		if ts, ok := n["@type"].([]any); ok && len(ts) == 1 && (ts[0] == NS+"T" || ts[0] == NS+"K") {
 			plain = append(plain, n)
+		} else if _, isKid := n[NS+"q"]; isKid { // a linked node without a class
+			plain = append(plain, n)
 		}
 	}
 	pb, _ := json.Marshal(plain)
@@ -794,6 +812,7 @@ func implC14(h caseHead, raw []byte) map[string]any {
 		d2.UseNumber()
 		if d2.Decode(&doc2) == nil {
 			rep2 := doc2[0]["doc:encodes"].([]any)[0].(map[string]any)
+			dropLocations(rep["result"]) // also inside nested sub-results
 			a, _ := json.Marshal(rep["result"])
 			b, _ := json.Marshal(rep2["result"])
 			same = string(a) == string(b) && rep["conforms"] == rep2["conforms"]
@@ -999,6 +1018,20 @@ func implC05(h caseHead, raw []byte) map[string]any {
 	res["outcome"] = "ok"
 	res["docs"] = docs
 	return res
+}
+
+func dropLocations(v any) {
+	switch x := v.(type) {
+	case map[string]any:
+		delete(x, "location")
+		for _, c := range x {
+			dropLocations(c)
+		}
+	case []any:
+		for _, c := range x {
+			dropLocations(c)
+		}
+	}
 }
 
 // c15: the same profile in several spellings on the same data
